@@ -256,6 +256,7 @@ fn enumerate(t: Tier, shard: usize, nshards: usize, f: &mut dyn FnMut(Case) -> b
             }
             for n2 in 0..=8 {
                 ops.push(Op::CloneFrom(n2));
+                ops.push(Op::ConvertTo(n2));
             }
             for i in 0..n {
                 ops.push(Op::Flip(i, false));
@@ -347,7 +348,7 @@ fn strategy_none(_t: Tier) -> BoxedStrategy<Case> {
 pub fn def() -> PropDef {
     PropDef {
         id: "C02",
-        rule: "cases = (family, history): a pool of 4 well-formed generated tables of one size n in 0..=12 and a sequence of public API calls with in-range arguments (constructors, from_blocks(well-formed), from_hex_string(any string), operators in all forms, flip/swap/cofactors/from_cofactors, bit setters, canonizations (n<=6), hooked successor, random(), clone_from into a fresh table of another size, conversions from Sop/Esop/Soes, round trips print->parse, Lut<->LutN, cofactors->from_cofactors, double flip, x^y^y) writing into slots. After every step the written slot must have exactly max(1,2^n/64) blocks and no bit >= 2^n, and ==, !=, cmp, partial_cmp, Hash (DefaultHasher) must agree with equality of the functions read through value(), against every other slot and against a from_blocks twin of the same function; at the end HashSet/BTreeSet sizes equal the number of distinct functions and (Lut) tables of different n never compare equal. Sub-check `steps`: histories of <=2 steps (inductive step from arbitrary well-formed tables) + exhaustive all tables n<=3 x all unary operations/arguments; `ctors`: every constructor argument for every n; `histories`: sequences up to 40 (quick) / 120 (thorough) steps. Non-trivial = a non-constant initial table and >=1 written slot, and for long histories two slots holding the same function reached by different routes.",
+        rule: "cases = (family, history): a pool of 4 well-formed generated tables of one size n in 0..=12 and a sequence of public API calls with in-range arguments (constructors, from_blocks(well-formed), from_hex_string(any string), operators in all forms, flip/swap/cofactors/from_cofactors, bit setters, canonizations (n<=6), hooked successor, random(), clone_from into a fresh table of another size, Lut -> LutK::try_from for every K (an Ok result must be well formed whatever its size), conversions from Sop/Esop/Soes, round trips print->parse, Lut<->LutN, cofactors->from_cofactors, double flip, x^y^y) writing into slots. After every step the written slot must have exactly max(1,2^n/64) blocks and no bit >= 2^n, and ==, !=, cmp, partial_cmp, Hash (DefaultHasher) must agree with equality of the functions read through value(), against every other slot and against a from_blocks twin of the same function; at the end HashSet/BTreeSet sizes equal the number of distinct functions and (Lut) tables of different n never compare equal. Sub-check `steps`: histories of <=2 steps (inductive step from arbitrary well-formed tables) + exhaustive all tables n<=3 x all unary operations/arguments; `ctors`: every constructor argument for every n; `histories`: sequences up to 40 (quick) / 120 (thorough) steps. Non-trivial = a non-constant initial table and >=1 written slot, and for long histories two slots holding the same function reached by different routes.",
         assumptions: vec![
             "value() is the functional observation; a step that panics ends the history without a verdict here (panics are C17/C04/C11 business)",
             "from_blocks is only given well-formed blocks (the model masks)",
